@@ -597,3 +597,93 @@ Example c03o_ex_root_on_behalf_of_banned :
   | None => False
   end.
 Proof. vm_compute. repeat split. Qed.
+
+(* ------------------------------------------------------------------ *)
+(* s03f: creation of a peer-to-peer topic - whose auth level selects the creator's granted mode
+   (Sys/P2PCreateC03f.v: Session.dispatch's acting user/level, selectAccessMode, initTopicP2P,
+   subscriptionReply/thisUserSub without a requested mode, the publish gate).  All statements for
+   any two distinct accounts, any default access modes, any stored rows, any session table. *)
+From Tinode Require Import Sys.P2PCreateC03f Sys.P2PCreateC03fProofs.
+
+(* the subscription created for the requester of {sub usrB} is granted exactly the peer's default
+   for the level the request is executed at (selectAccessMode on the ACTING level) *)
+Theorem c03f_creator_grant_follows_acting_level : forall ua ub, ua <> ub -> forall l s u1 s' c nb,
+  party_c03f ua ub u1 = true -> init_p2p_c03f ua ub l s u1 = IOk s' c nb ->
+  (if t_ex s then srow_of ua s u1 else None) = None ->
+  nb = true /\
+  r_given (crow_of ua c u1) =
+    select_mode_c03f l (d_anon (acct_of ua s (peer_c03f ua ub u1))) (d_auth (acct_of ua s (peer_c03f ua ub u1))) ModeCP2P_c03f /\
+  srow_of ua s' u1 = Some (crow_of ua c u1).
+Proof. exact init_creator_grant. Qed.
+Print Assumptions c03f_creator_grant_follows_acting_level.
+
+(* an existing subscription of the requester is loaded as stored *)
+Theorem c03f_existing_grant_kept : forall ua ub, ua <> ub -> forall l s u1 s' c nb r,
+  party_c03f ua ub u1 = true -> init_p2p_c03f ua ub l s u1 = IOk s' c nb -> t_ex s = true -> srow_of ua s u1 = Some r ->
+  nb = false /\ crow_of ua c u1 = r /\ srow_of ua s' u1 = Some r.
+Proof. exact init_existing_kept. Qed.
+Print Assumptions c03f_existing_grant_kept.
+
+(* the session's own level and user do not matter: a request of ANY root session on behalf of u
+   with extra.authlevel x is, reply and resulting state, the request of a session of u at that
+   level (absent / unparsable authlevel = auth) *)
+Theorem c03f_obo_same_as_own_session : forall ua ub sm1 sm2 s q1 q2 r u x l,
+  alookup (q_sid q1) sm1 = Some (r, LvRoot) -> q_obo q1 = ObUser u -> q_xl q1 = x ->
+  l = (match parse_level_c03f x with LvNone => LvAuth | l0 => l0 end) ->
+  alookup (q_sid q2) sm2 = Some (u, l) -> q_obo q2 = ObNone -> q_sid q2 = q_sid q1 -> q_kind q2 = q_kind q1 ->
+  step_c03f ua ub sm1 s q1 = step_c03f ua ub sm2 s q2.
+Proof. exact obo_same_as_own. Qed.
+Print Assumptions c03f_obo_same_as_own_session.
+
+(* cache and stored rows agree after every history *)
+Theorem c03f_cache_follows_store_history : forall ua ub, ua <> ub -> forall sm h s s',
+  coh_c03f s -> run_c03f ua ub sm s h = Some s' -> coh_c03f s'.
+Proof. intros ua ub H sm h. exact (run_coh ua ub H sm h). Qed.
+Print Assumptions c03f_cache_follows_store_history.
+
+(* accepted iff: after any history, a {pub} executed as u (own session or root on behalf) gets
+   202 iff the sending session is attached and u's STORED row has W in want and in given *)
+Theorem c03f_publish_accepted_iff_history : forall ua ub, ua <> ub -> forall sm h s0 s q suid slvl u l s' code seq,
+  coh_c03f s0 -> run_c03f ua ub sm s0 h = Some s ->
+  alookup (q_sid q) sm = Some (suid, slvl) -> dispatch_c03f suid slvl (q_obo q) (q_xl q) = DRun u l -> q_kind q = KPub ->
+  step_c03f ua ub sm s q = Some (s', (code, seq)) ->
+  (code = 202 <-> attached_now_c03f s (q_sid q) = true /\ stored_writer_c03f ua s u = true).
+Proof. intros ua ub H sm h s0 s q suid slvl u l s' code seq C R. eapply pub_iff; [exact H|]. eapply run_coh; eassumption. Qed.
+Print Assumptions c03f_publish_accepted_iff_history.
+
+(* refused = no effect at all; accepted = next number, one message by u, rows untouched *)
+Theorem c03f_publish_effect : forall ua ub sm s q suid slvl u l s' code seq,
+  alookup (q_sid q) sm = Some (suid, slvl) -> dispatch_c03f suid slvl (q_obo q) (q_xl q) = DRun u l -> q_kind q = KPub ->
+  step_c03f ua ub sm s q = Some (s', (code, seq)) ->
+  (code <> 202 -> s' = s /\ seq = None) /\
+  (code = 202 -> exists c, ca s = Some c /\ seq = Some (k_lastid c + 1) /\ t_seq s' = k_lastid c + 1 /\
+                 s_msgs s' = s_msgs s ++ [(k_lastid c + 1, u)] /\ s_a s' = s_a s /\ s_b s' = s_b s).
+Proof. exact pub_effect. Qed.
+Print Assumptions c03f_publish_effect.
+
+(* the variant with the SESSION's level in initTopicP2P (seeded change C03-r5-2): full statement
+   "a creator whose peer's default for his level lacks W cannot publish" is refuted for it and
+   holds on the witness for the faithful model *)
+Definition c03f_sessvar_grant_statement : Prop := forall sm s q s1 r,
+  step_sessvar_c03f 1%N 2%N sm s q = Some (s1, r) -> step_c03f 1%N 2%N sm s q = Some (s1, r).
+Theorem c03f_sessvar_grant_refuted : ~ c03f_sessvar_grant_statement.
+Proof.
+  intros H. pose proof sessvar_witness as W. pose proof faithful_witness as F.
+  destruct (step_sessvar_c03f 1%N 2%N w_sessions_c03f w_state_c03f w_sub_c03f) as [[s1 r]|] eqn:E; [|exact W].
+  rewrite (H _ _ _ _ _ E) in F. destruct W as [W _]. destruct F as [F _]. rewrite W in F. discriminate.
+Qed.
+Print Assumptions c03f_sessvar_grant_refuted.
+(* partial: the two coincide whenever the request is not on behalf of somebody (s.authLvl = msg.AuthLvl) *)
+Theorem c03f_sessvar_grant_partial : forall ua ub sm s q, q_obo q = ObNone ->
+  step_sessvar_c03f ua ub sm s q = step_c03f ua ub sm s q.
+Proof.
+  intros ua ub sm s q H. unfold step_sessvar_c03f, step_c03f, step_gen_c03f. rewrite H.
+  destruct (alookup (q_sid q) sm) as [[a b]|]; reflexivity.
+Qed.
+Print Assumptions c03f_sessvar_grant_partial.
+Example c03f_ex_root_on_behalf_creates_without_w :
+  match step_c03f 1%N 2%N w_sessions_c03f w_state_c03f w_sub_c03f with
+  | Some (s1, _) => option_map r_given (s_a s1) = Some 27%N /\
+    match step_c03f 1%N 2%N w_sessions_c03f s1 w_pub_c03f with Some (_, (code, _)) => code = 403 | None => False end
+  | None => False end.
+Proof. exact faithful_witness. Qed.
